@@ -25,12 +25,12 @@ TYPES = ["map", "flat_map", "retry", "poll", "throttle", "timeout", "cos"]
 
 def cases(tier, seed):
     out = []
-    n = 24 if tier == "quick" else 240
+    n = 24 if tier == "quick" else 3000
     for i in range(n):
         out.append({"name": "bind.diff/%d" % i, "kind": "diff", "idx": i, "n": 12 if tier == "quick" else 25})
-    for i in range(8 if tier == "quick" else 60):
+    for i in range(8 if tier == "quick" else 800):
         out.append({"name": "bind.alias/%d" % i, "kind": "alias", "idx": i, "n": 10})
-    for i in range(8 if tier == "quick" else 60):
+    for i in range(8 if tier == "quick" else 800):
         out.append({"name": "names/%d" % i, "kind": "names", "idx": i, "n": 12})
     return out
 
